@@ -5,6 +5,7 @@ import (
 	"encoding/base64"
 	"fmt"
 	"net/url"
+	"strings"
 
 	"github.com/beevik/etree"
 
@@ -100,4 +101,71 @@ func (sp *ServiceProvider) ValidateRedirectSignature(request, relayState, sigAlg
 	}
 
 	return signature.ValidateRedirect(sigAlg, elementToSign, signatureValue, sp.signerPublicKey)
+}
+
+// ValidateRedirectSignatureOfQuery verifies a Redirect-binding signature over the
+// SAMLRequest, RelayState and SigAlg parameters exactly as they stand in the raw
+// query string. The sender signs the octets in its own percent-encoding
+// (lower-case hex digits or %20 are as legal as what url.QueryEscape produces),
+// so they must not be rebuilt from the decoded values. The decoded values the
+// caller acts on have to be the ones the signed parameters decode to.
+func (sp *ServiceProvider) ValidateRedirectSignatureOfQuery(rawQuery, request, relayState, sigAlg, expectedSig string) error {
+	if sp.signerPublicKey == nil {
+		return fmt.Errorf("error can not validate signature if no certificate is present for this service provider")
+	}
+
+	elementToSign, err := signedRedirectQuery(rawQuery, request, relayState, sigAlg)
+	if err != nil {
+		return err
+	}
+	signatureValue, err := base64.StdEncoding.DecodeString(expectedSig)
+	if err != nil {
+		return err
+	}
+
+	return signature.ValidateRedirect(sigAlg, []byte(elementToSign), signatureValue, sp.signerPublicKey)
+}
+
+func signedRedirectQuery(rawQuery, request, relayState, sigAlg string) (string, error) {
+	var signedRequest, signedRelayState, signedSigAlg string
+	var hasRequest, hasRelayState, hasSigAlg bool
+	for _, pair := range strings.Split(rawQuery, "&") {
+		key, raw, _ := strings.Cut(pair, "=")
+		switch key {
+		case "SAMLRequest":
+			if hasRequest {
+				continue
+			}
+			if value, err := url.QueryUnescape(raw); err != nil || value != request {
+				return "", fmt.Errorf("SAMLRequest in query does not match the request")
+			}
+			signedRequest, hasRequest = pair, true
+		case "RelayState":
+			if hasRelayState {
+				continue
+			}
+			if value, err := url.QueryUnescape(raw); err != nil || value != relayState {
+				return "", fmt.Errorf("RelayState in query does not match the request")
+			}
+			signedRelayState, hasRelayState = pair, true
+		case "SigAlg":
+			if hasSigAlg {
+				continue
+			}
+			if value, err := url.QueryUnescape(raw); err != nil || value != sigAlg {
+				return "", fmt.Errorf("SigAlg in query does not match the request")
+			}
+			signedSigAlg, hasSigAlg = pair, true
+		}
+	}
+	if !hasRequest || !hasSigAlg {
+		return "", fmt.Errorf("query contains no signed SAMLRequest")
+	}
+	if !hasRelayState {
+		if relayState != "" {
+			return "", fmt.Errorf("RelayState is not part of the signed query")
+		}
+		return signedRequest + "&" + signedSigAlg, nil
+	}
+	return signedRequest + "&" + signedRelayState + "&" + signedSigAlg, nil
 }
